@@ -131,6 +131,59 @@ theorem create_link_portable (path target : Bytes) (h : createGuard .portable pa
 
 theorem create_link_ignore (path target : Bytes) : createGuard .ignore path target = false := rfl
 
+/-- **The verdict for a link does not depend on earlier creations of the same
+`Transition` call.** For any sequence of link creation requests, in any mode:
+exactly the requests that pass the guard *at their own path* are created, and
+exactly the others get a problem recorded. -/
+theorem create_seq_verdict_independent (mode : Mode) (links : List (Bytes × Bytes)) :
+    (createSeq mode links).created = links.filter (fun l => createGuard mode l.1 l.2) ∧
+    (createSeq mode links).problems = (links.filter (fun l => !createGuard mode l.1 l.2)).map (·.1) := by
+  have := createFold mode links { created := [], problems := [] }
+  simpa [createSeq] using this
+
+/-- Appending one more request after any history `pre`: its outcome is the
+guard's verdict for that link alone. -/
+theorem create_after_any_history (mode : Mode) (pre : List (Bytes × Bytes)) (l : Bytes × Bytes) :
+    (createSeq mode (pre ++ [l])).created =
+      (createSeq mode pre).created ++ (if createGuard mode l.1 l.2 then [l] else []) := by
+  rw [(create_seq_verdict_independent mode (pre ++ [l])).1, (create_seq_verdict_independent mode pre).1]
+  cases hg : createGuard mode l.1 l.2 <;> simp [List.filter_append, List.filter_cons, hg]
+
+/-- **`create_link_portable`, per created link, for any sequence of creations in
+one call**: in portable mode every link the call creates is in normal form and
+resolves inside the root *at its own depth* — whatever was created before it
+(same target string at other depths included). -/
+theorem create_seq_portable (links : List (Bytes × Bytes)) (l : Bytes × Bytes)
+    (h : l ∈ (createSeq .portable links).created) :
+    normalize l.1 l.2 = .ok l.2 ∧
+    ∀ k, (resolve (linkDir l.1) ((splitSlash l.2).take k)).isSome := by
+  rw [(create_seq_verdict_independent .portable links).1] at h
+  have hg : createGuard .portable l.1 l.2 = true := by
+    have := (List.mem_filter.mp h).2
+    simpa using this
+  exact create_link_portable l.1 l.2 hg
+
+/-- A request the guard rejects at its own path is never created and its path is
+reported, whatever else the call does. -/
+theorem create_seq_refused_reported (mode : Mode) (links : List (Bytes × Bytes)) (l : Bytes × Bytes)
+    (hl : l ∈ links) (hg : createGuard mode l.1 l.2 = false) :
+    l ∉ (createSeq mode links).created ∧ l.1 ∈ (createSeq mode links).problems := by
+  obtain ⟨h1, h2⟩ := create_seq_verdict_independent mode links
+  rw [h1, h2]
+  refine ⟨?_, ?_⟩
+  · intro hm
+    have := (List.mem_filter.mp hm).2
+    simp [hg] at this
+  · exact List.mem_map.mpr ⟨l, List.mem_filter.mpr ⟨hl, by simp [hg]⟩, rfl⟩
+
+/-- Non-vacuity: `sub/inner → ../s` (created) followed by `outer → ../s`
+(refused although the same target string was just accepted one level deeper). -/
+example :
+    (createSeq .portable [([115, 117, 98, 47, 105], [46, 46, 47, 115]), ([111], [46, 46, 47, 115])]).created =
+      [([115, 117, 98, 47, 105], [46, 46, 47, 115])] ∧
+    (createSeq .portable [([115, 117, 98, 47, 105], [46, 46, 47, 115]), ([111], [46, 46, 47, 115])]).problems = [[111]] := by
+  decide
+
 /-- **The unrepaired walk is unsound** (why `fixes/C16.patch` is needed): the
 source as it stands accepts `.//..` for a link directly in the root although
 its resolution leaves the root, and `a//../..` likewise (DESIGN.md §9). -/
